@@ -437,9 +437,16 @@ def App.append (h : Head) (a : App) (key : String) (x : Sample) (invalid : Bool)
       | .error e => (h1, m.2, some (AErr.ofReject e))
       | .ok _ => (h1, { m.2 with pend := m.2.pend ++ [(key, x)] }, none)
 
+/-- Which `remoteWriteAppender` /repo has: `false` = the code as found (finding C41-F4: the embedded head
+    appender's `AppendSTZeroSample / AppendHistogramSTZeroSample` are reached without the `maxTime` bound),
+    `true` = fixes/C41-F4.patch applied (the wrapper rejects `t > maxTime ∨ st > maxTime` like `Append`). -/
+def repoFixedFutureST : Bool := false
+
 /-- `AppendSTZeroSample / AppendHistogramSTZeroSample`: every error is swallowed by the handler; the only
     effect is the synthetic zero sample `z` at `st` when it is appendable in order. -/
-def App.appendST (h : Head) (a : App) (key : String) (t st : Int) (z : Sample) : Head × App :=
+def App.appendSTG (fixed : Bool) (h : Head) (a : App) (key : String) (t st : Int) (z : Sample) : Head × App :=
+  if fixed && (decide (t > futureLimit) || decide (st > futureLimit)) then (h, a)
+  else
   let m := a.mat h t
   if st ≥ t then m
   else
@@ -447,6 +454,8 @@ def App.appendST (h : Head) (a : App) (key : String) (t st : Int) (z : Sample) :
     match appendable z.kind st z.v (h1.store.get key).view m.2.w with
     | .ok .inOrder => (h1, { m.2 with pend := m.2.pend ++ [(key, { z with t := st })] })
     | _ => (h1, m.2)
+
+def App.appendST : Head → App → String → Int → Int → Sample → Head × App := App.appendSTG repoFixedFutureST
 
 /-- `counted`: accepted, a valid series reference comes back; `countedNoRef`: `0, nil` (duplicate of the
     newest stored exemplar) — counted as written by the handler, reference lost -/
